@@ -4,8 +4,8 @@
 (* VfsHandles; after every call the published bytes seen by a FRESH reader are compared too.      *)
 EXTENDS VfsHandles, Json, IOUtils
 Rec == ndJsonDeserialize(IOEnv.TRACE)
-VARIABLES l, st, tainted, seg, cfg
-vars == <<l, st, tainted, seg, cfg>>
+VARIABLES l, st, tainted, seg, cfg, sup, crv
+vars == <<l, st, tainted, seg, cfg, sup, crv>>
 Report(kind, rec) == PrintT(<<kind, ToJson(rec)>>)
 
 IsPrefixSeq(a, b) == Len(a) <= Len(b) /\ SubSeq(b, 1, Len(a)) = a
@@ -14,8 +14,11 @@ ReadOK(got, want) == IsPrefixSeq(got, want) /\ (want # <<>> => got # <<>>)
 
 FreshOK(e, s) ==
   ~Quiescent(s) \/
-  IF Exists(s) THEN e.fresh.c = "ok" /\ e.fresh.v = s.file /\ e.fresh.len = Len(s.file)
+  IF s.isdir THEN e.fresh.c \notin {"ok", "panic"} /\ e.fresh.k = "dir"       \* a directory at the path stays a directory
+  ELSE IF Exists(s) THEN e.fresh.c = "ok" /\ e.fresh.v = s.file /\ e.fresh.len = Len(s.file) /\ e.fresh.k = "file"
   ELSE e.fresh.c = "notfound"
+\* creation time (C19): once set it survives every later write / append / flush / drop until the file is created anew
+CrOK(e, c2) == c2 \in {"none", "any"} \/ e.fresh.cr = c2
 
 Bad(e, r, s2) ==
   (IF e.res.c = "panic" \/ e.fresh.c = "panic" THEN {"nopanic"} ELSE {})
@@ -23,12 +26,14 @@ Bad(e, r, s2) ==
   \cup (IF e.res.c = "ok" /\ "ok" \in r.c /\ e.o.op = "read" /\ ~ReadOK(e.res.v, r.v) THEN {"read"} ELSE {})
   \cup (IF e.res.c = "ok" /\ "ok" \in r.c /\ e.o.op \in {"seek_r", "seek_w"} /\ e.res.v # r.v THEN {"seek"} ELSE {})
   \cup (IF FreshOK(e, s2) THEN {} ELSE {"published"})
+  \cup (IF e.o.op = "set_cr" /\ e.res.c # (IF "cr" \in sup THEN "ok" ELSE "not_supported") THEN {"class"} ELSE {})
 
-Init == l = 1 /\ st = InitH /\ tainted = FALSE /\ seg = 0 /\ cfg = "-"
+Init == l = 1 /\ st = InitH /\ tainted = FALSE /\ seg = 0 /\ cfg = "-" /\ sup = {} /\ crv = "none"
 SegInit ==
   /\ l <= Len(Rec) /\ Rec[l].ev = "hinit"
   /\ st' = [InitH EXCEPT !.ex = Rec[l].file0.ex, !.file = Rec[l].file0.d]
   /\ tainted' = FALSE /\ seg' = seg + 1 /\ cfg' = Rec[l].cfg
+  /\ sup' = {Rec[l].sup[i] : i \in DOMAIN Rec[l].sup} /\ crv' = IF Rec[l].file0.ex THEN "any" ELSE "none"
   /\ l' = l + 1
 Call ==
   /\ l <= Len(Rec) /\ Rec[l].ev = "hcall"
@@ -36,8 +41,13 @@ Call ==
          r == Step(st, e.o)
          \* follow the observed length of a (possibly short) read
          s2 == IF e.o.op = "read" /\ e.res.c = "ok" THEN [r.s EXCEPT !.r.pos = st.r.pos + Len(e.res.v)] ELSE r.s
-         bad == IF e.o.op = "xseek" THEN (IF e.res.c = "panic" THEN {"nopanic"} ELSE {}) ELSE Bad(e, r, s2) IN
-     /\ st' = s2
+         c2 == IF e.res.c # "ok" THEN crv
+               ELSE IF e.o.op = "set_cr" THEN e.o.tv
+               ELSE IF e.o.op = "open_create" THEN "any"
+               ELSE IF e.o.op = "remove" THEN "none" ELSE crv
+         bad == IF e.o.op = "xseek" THEN (IF e.res.c = "panic" THEN {"nopanic"} ELSE {})
+                ELSE Bad(e, r, s2) \cup (IF Quiescent(s2) /\ Exists(s2) /\ e.fresh.c = "ok" /\ ~CrOK(e, c2) THEN {"times"} ELSE {}) IN
+     /\ st' = s2 /\ crv' = c2
      /\ tainted' = (tainted \/ bad # {} \/ e.o.op = "xseek")
      /\ IF bad = {} THEN TRUE
         ELSE Report("VIOL", [l |-> l, seg |-> seg, secondary |-> tainted, conjs |-> bad,
@@ -46,7 +56,7 @@ Call ==
                                       handle |-> IF st.w.open THEN (IF st.w.app THEN "append" ELSE "create") ELSE IF st.r.open THEN "read" ELSE "none",
                                       past_end |-> IF st.r.open THEN st.r.pos > Len(st.r.data) ELSE st.w.pos > Len(st.w.buf),
                                       detached |-> st.w.det]])
-  /\ UNCHANGED <<seg, cfg>>
+  /\ UNCHANGED <<seg, cfg, sup>>
   /\ l' = l + 1
 Next == SegInit \/ Call
 TrSpec == Init /\ [][Next]_vars
